@@ -192,6 +192,9 @@ func (c03) Gen(r *core.Rand, tier string) interface{} {
 	l := r.Pick(1, 2, 7, 8, 13, 14, 15, 20, 30, 100, 181, 182, 183, 183, r.Range(1, 183))
 	s.Init = genAF(r, l)
 	n := r.Pick(1, 2, 3, 5, 8, 12, 20, 40)
+	if tier == "thorough" && r.Chance(1, 8) {
+		n = r.Pick(80, 150, 300)
+	}
 	// a shadow of presence/room so that argument sizes can be biased to the edge
 	cur := s.Init
 	for i := 0; i < n; i++ {
